@@ -23,6 +23,35 @@ EXPR_POOL = ["0", "None", "(1, 2)", '"s,t"', "g(x0, 1)", "[3, 4][0]", "x0 if T e
 # expressions whose value at def time (as a default) differs from their value at call time (as an argument):
 # a fresh mutable object, a global rebound after the definition
 TIME_SENSITIVE = ("[]", "LEVEL")
+# string literals with characters outside ASCII (ast column offsets count UTF-8 bytes)
+NONASCII = ['"\u00e9"', "'\u00fc,\u00df'", '"\u4e2d=1"']
+
+
+def sprinkle_nonascii(rng, case):
+    """puts non-ASCII string literals into arguments (and sometimes a default) of a generated case"""
+    touched = False
+    for s in case["sites"]:
+        if s["pos"] and rng.random() < 0.6:
+            i = rng.randrange(len(s["pos"]))
+            if not (s["style"] in ("cls", "subinit") and i == 0) and not s.get("twin") and not s.get("nested"):
+                s["pos"][i] = rng.choice(NONASCII)
+                touched = True
+        if s["kws"] and rng.random() < 0.4:
+            i = rng.randrange(len(s["kws"]))
+            s["kws"][i] = (s["kws"][i][0], rng.choice(NONASCII))
+            touched = True
+    withd = [i for i, p in enumerate(case["params"]) if p[1] is not None]
+    if withd and (rng.random() < 0.4 or not touched):
+        i = rng.choice(withd)
+        case["params"][i] = (case["params"][i][0], rng.choice(NONASCII))
+        touched = True
+    if touched:
+        case["nonascii"] = True
+    return touched
+
+
+# argument-only expressions: string literals spanning several lines (never used as defaults: the header stays one line)
+MULTILINE_ARGS = ['"""p\n  q"""', "'''r,\ns=1'''", '"""\nt\n"""']
 
 
 def fresh_value(k, j):
@@ -178,8 +207,11 @@ def gen_call_args(rng, params, star, kw, k, skip_first, valid=True, allow_star=T
         j[0] += 1
         if dflt is not None and rng.random() < 0.3:
             return dflt               # an argument spelled exactly like the default is still an argument
-        if rng.random() < 0.7:
+        r = rng.random()
+        if r < 0.66:
             return fresh_value(k, j[0])
+        if r < 0.72:
+            return rng.choice(MULTILINE_ARGS)
         return rng.choice(EXPR_POOL)
     required = sum(1 for p in ps if p[1] is None)
     npos = rng.randint(0, n)
@@ -294,7 +326,7 @@ def build_modules(case):
     if kind == "func":
         m.append("def f(%s):\n    return %s\n\n\n" % (fmt_params(params, star, kw, kwonly), body_expr("f", params + kwonly, star, kw, used, extra)))
     elif kind == "method":
-        m.append("class A(object):\n    def __init__(self, tag=0):\n        self.tag = tag\n\n"
+        m.append("class A(object):\n    def __init__(self, tag=0):\n        self.tag = tag\n\n    def __repr__(self):\n        return 'A(%%r)' %% (self.tag,)\n\n"
                  "    def meth(%s):\n        return %s\n\n" % (fmt_params(params, star, kw, kwonly), body_expr("meth", params + kwonly, star, kw, used, extra)))
     elif case.get("nested"):
         # the class whose __init__ changes is nested in another class and also reached through instances of it
@@ -303,12 +335,16 @@ def build_modules(case):
         for s in case["sites"]:
             if s["style"] == "selfctor":
                 m.append("    def make%d(self):\n        v%d = %s\n        return v%d.v\n\n" % (
-                    s["k"], s["k"], fmt_call("self.A", s, s["layout"]).replace("\n", "\n    "), s["k"]))
+                    s["k"], s["k"], (fmt_call("self.A", s, s["layout"]).replace("\n", "\n    ") if s["layout"] == 2 else fmt_call("self.A", s, s["layout"])), s["k"]))
         m.append("    def tag(self):\n        return 'outer'\n\n\not = Outer()\n\n")
     else:
         m.append("class A(object):\n    def __init__(%s):\n        self.v = %s\n\n" % (
             fmt_params(params, star, kw, kwonly), body_expr("init", params + kwonly, star, kw, used, extra)))
     mods = {"m.py": m, "u1.py": ["import m\nfrom m import *\n\n"], "u2.py": ["import m as mm\nfrom m import T, x0, g, LEVEL, cfg\n\n"]}
+    if kind == "method":
+        # `node` is an instance in u1 and the class itself in u2: `node.meth(o2, ...)` is a bound call there, an unbound one here
+        mods["u1.py"].append("o2 = m.A(2)\nnode = m.A(1)\n\n")
+        mods["u2.py"].append("o2 = mm.A(2)\nnode = mm.A\n\n")
     # methods of A that contain call sites must come before the class ends
     if kind in ("method", "init") and not case.get("nested"):
         for s in case["sites"]:
@@ -400,7 +436,33 @@ def gen_case(rng, wild=False, nsites=None, star_calls=True):
                  infunc=(style not in ("self", "subinit", "selfctor") and rng.random() < 0.3),
                  layout=rng.choice([0, 0, 0, 1, 2, 3]))
         case["sites"].append(s)
+    if kind == "method" and nsites is None and rng.random() < 0.7:
+        add_twin_sites(rng, case, ns + 1)
+    for s in case["sites"]:
+        if any("\n" in x for x in s["pos"] + [v for _, v in s["kws"]] + list(s.get("star_vals", [])) + [v for _, v in s.get("kwstar_items", [])]):
+            s["layout"] = 0           # the text of a multi-line literal must not be re-indented by the printer
+            s["infunc"] = False
     return case
+
+
+def add_twin_sites(rng, case, k):
+    """Two call sites with character-identical text `node.meth(o2, ...)`: in u1 `node` is an instance (bound call,
+    o2 is the first real argument), in u2 `node` is an alias of the class (unbound call, o2 is the receiver)."""
+    ps = case["params"][1:]
+    required = sum(1 for p in ps if p[1] is None)
+    hi = len(ps) + (2 if case["star"] else 0)
+    if hi < required + 1 or not ps:
+        return
+    n = rng.randint(required + 1, hi)           # arguments of the bound form; the unbound form passes n - 1
+    vals = ["o2"] + [fresh_value(k, j) for j in range(1, n)]
+    kws = []
+    for (name, dflt) in ps[n:]:
+        if dflt is not None and rng.random() < 0.4:
+            kws.append((name, fresh_value(k, 20 + len(kws))))
+    base = {"pos": vals, "kws": kws, "star": None, "kwstar": None, "star_len": 0, "kwstar_keys": [], "infunc": False, "layout": 0, "func": "node.meth"}
+    case["sites"].append(dict(base, k=k, module="u1.py", style="inst", implicit=True, ctor=False, pos=vals[1:], twin="bound"))
+    case["sites"][-1]["pos"] = list(vals)      # bound: every written argument is a real argument
+    case["sites"].append(dict(base, k=k + 1, module="u2.py", style="cls", implicit=False, ctor=False, pos=list(vals), twin="unbound"))
 
 
 # ----------------------------------------------------------------------------- rope driver
@@ -429,7 +491,7 @@ def target_offset(case, src):
     return src.index(name) + 4
 
 
-def run_rope(case, modules, target=None, stop_at=None, events=None):
+def run_rope(case, modules, target=None, stop_at=None, events=None, info=None):
     """Returns (new_modules | None, error_name | None).
     stop_at = k: a real TaskHandle is passed whose k-th notification (job set created, job started, job finished)
     stops it; events (a list) receives the number of notifications seen."""
@@ -456,6 +518,11 @@ def run_rope(case, modules, target=None, stop_at=None, events=None):
                 handle.add_observer(observer)
                 kwargs["task_handle"] = handle
             try:
+                if info is not None and not kwargs:
+                    # a preview that is thrown away: computing the changes is pure, the second computation on the
+                    # untouched project must give the same change set
+                    preview = ChangeSignature(project, res, off).get_changes(make_changers(case["changers"]))
+                    info["preview"] = {ch.resource.path: ch.new_contents for ch in preview.changes}
                 changes = ChangeSignature(project, res, off).get_changes(make_changers(case["changers"]), **kwargs)
             except Exception as e:   # IndexError / AssertionError of the changers, rope's own refusals, InterruptedTaskError
                 return None, type(e).__name__
@@ -465,6 +532,8 @@ def run_rope(case, modules, target=None, stop_at=None, events=None):
             new = dict(modules)
             for ch in changes.changes:
                 new[ch.resource.path] = ch.new_contents
+            if info is not None and "preview" in info:
+                info["recompute_differs"] = info["preview"] != {ch.resource.path: ch.new_contents for ch in changes.changes}
             return new, None
         finally:
             project.close()
@@ -473,13 +542,25 @@ def run_rope(case, modules, target=None, stop_at=None, events=None):
 
 
 # ----------------------------------------------------------------------------- text -> structure
+class _Tok(object):
+    __slots__ = ("type", "string", "a", "b")
+
+    def __init__(self, type_, string, a, b):
+        self.type, self.string, self.a, self.b = type_, string, a, b
+
+
 def _toks(text):
+    """tokens with ABSOLUTE character offsets a/b into text (a string literal may span lines)"""
     toks = []
+    starts = [0]
+    for ln in text.split("\n"):
+        starts.append(starts[-1] + len(ln) + 1)
     try:
         for t in tokenize.generate_tokens(io.StringIO(text).readline):
             if t.type in (tokenize.NL, tokenize.NEWLINE, tokenize.COMMENT, tokenize.INDENT, tokenize.DEDENT, tokenize.ENDMARKER):
                 continue
-            toks.append(t)
+            a = starts[t.start[0] - 1] + t.start[1]
+            toks.append(_Tok(t.type, t.string, a, a + len(t.string)))      # not t.end: unreliable after non-ASCII text (3.12)
     except (tokenize.TokenError, IndentationError, SyntaxError):
         pass
     return toks
@@ -489,8 +570,6 @@ def split_parens(text):
     """text ends (after stripping) with ')': returns (prefix, [piece, ...]) for the last parenthesis group,
     pieces split at top-level commas, or None."""
     text = text.strip()
-    if "\n" in text:
-        return None
     toks = _toks(text)
     if not toks or toks[-1].string != ")":
         return None
@@ -507,19 +586,19 @@ def split_parens(text):
                 break
     if open_i is None:
         return None
-    prefix = text[:toks[open_i].start[1]].strip()
+    prefix = text[:toks[open_i].a].strip()
     pieces = []
     depth = 0
-    start = toks[open_i].end[1]
+    start = toks[open_i].b
     for t in toks[open_i + 1:-1]:
         if t.type == tokenize.OP and t.string in "([{":
             depth += 1
         elif t.type == tokenize.OP and t.string in ")]}":
             depth -= 1
         elif t.type == tokenize.OP and t.string == "," and depth == 0:
-            pieces.append(text[start:t.start[1]].strip())
-            start = t.end[1]
-    last = text[start:toks[-1].start[1]].strip()
+            pieces.append(text[start:t.a].strip())
+            start = t.b
+    last = text[start:toks[-1].a].strip()
     if last or pieces:
         pieces.append(last)
     return prefix, pieces
@@ -528,7 +607,7 @@ def split_parens(text):
 def piece_kw(piece):
     toks = _toks(piece)
     if len(toks) >= 2 and toks[0].type == tokenize.NAME and toks[1].type == tokenize.OP and toks[1].string == "=":
-        return toks[0].string, piece[toks[1].end[1]:].strip()
+        return toks[0].string, piece[toks[1].b:].strip()
     return None
 
 
@@ -541,7 +620,7 @@ def split_eq(piece):
         elif t.type == tokenize.OP and t.string in ")]}":
             depth -= 1
         elif t.type == tokenize.OP and t.string == "=" and depth == 0:
-            return piece[:t.start[1]].strip(), piece[t.end[1]:].strip()
+            return piece[:t.a].strip(), piece[t.b:].strip()
     return None
 
 
@@ -619,25 +698,27 @@ def extract_site_text(src, k):
     if not m:
         return None
     rest = src[m.end():]
-    out, depth = [], 0
-    pos = 0
+    out = []
+    starts = [0]
+    for ln in rest.split("\n"):
+        starts.append(starts[-1] + len(ln) + 1)
+    prev_end = 0
     try:
-        toks = list(tokenize.generate_tokens(io.StringIO(rest).readline))
+        # lazily: the lines after the statement may be indented in a way the tokenizer rejects out of context
+        for t in tokenize.generate_tokens(io.StringIO(rest).readline):
+            if t.type == tokenize.NEWLINE or t.type == tokenize.ENDMARKER:
+                break
+            if t.type in (tokenize.COMMENT, tokenize.NL):
+                continue
+            a = starts[t.start[0] - 1] + t.start[1]
+            gap = rest[prev_end:a]
+            if out:
+                out.append(gap if "\n" not in gap and "#" not in gap else " ")
+            out.append(t.string)
+            prev_end = a + len(t.string)        # not t.end: unreliable for a multi-line literal after non-ASCII text (3.12)
     except (tokenize.TokenError, IndentationError, SyntaxError):
-        return rest.split("\n", 1)[0]
-    lines = rest.split("\n")
-    prev_end = (1, 0)
-    for t in toks:
-        if t.type == tokenize.NEWLINE or t.type == tokenize.ENDMARKER:
-            break
-        if t.type in (tokenize.COMMENT, tokenize.NL):
-            continue
-        if t.start[0] == prev_end[0]:
-            out.append(lines[t.start[0] - 1][prev_end[1]:t.start[1]])
-        elif out:
-            out.append(" ")
-        out.append(t.string)
-        prev_end = t.end
+        if not out:
+            return rest.split("\n", 1)[0]
     return "".join(out)
 
 
@@ -808,9 +889,13 @@ def run_program(modules):
 def gen_beyond(rng):
     """keyword-only parameters, nested calls of the changed function, subclass constructors, a starred
     argument that is not the last positional: rope + oracle (+ model where it applies)"""
-    t = rng.choice(["kwonly", "kwonly", "nested", "subctor", "starfirst"])
+    t = rng.choice(["kwonly", "kwonly", "nested", "subctor", "starfirst", "nonascii", "nonascii"])
     for _ in range(50):
         case = gen_case(rng, wild=False, nsites=rng.choice([1, 2]), star_calls=False)
+        if t == "nonascii":
+            if sprinkle_nonascii(rng, case):
+                return case
+            continue
         if t == "kwonly":
             if case["kw"] is not None and rng.random() < 0.5:
                 case["kw"] = None
@@ -822,6 +907,9 @@ def gen_beyond(rng):
                     if d is None or rng.random() < 0.5:
                         s["kws"].insert(rng.randint(0, len(s["kws"])), (n, fresh_value(s["k"], 50)))
             npd = sum(1 for _, d in case["params"] if d is not None)
+            # with positional defaults the header parser zips (name, default) TUPLES with the keyword-only defaults: a missing
+            # default among the zipped ones makes it raise (AttributeError, modelled as a refusal); otherwise a tuple ends up
+            # as a parameter name, outside the token model (oracle only)
             first = [d for _, d in ko][:min(len(ko), npd)]
             case["unmodelled"] = bool(npd > 0 and all(d is not None for d in first))
             return case
@@ -860,7 +948,7 @@ def gen_beyond(rng):
     return gen_case(rng)
 
 
-def run_introduce(case, modules):
+def run_introduce(case, modules, info=None):
     """IntroduceParameter at the first occurrence of the expression in the body of the target function."""
     from rope.base.project import Project
     from rope.refactor.introduce_parameter import IntroduceParameter
@@ -878,7 +966,12 @@ def run_introduce(case, modules):
             if "." in expr:
                 off += len(expr) - 1      # on the attribute name: the primary is the dotted expression
             try:
+                if info is not None:
+                    preview = IntroduceParameter(project, res, off).get_changes(case["introduce"]["name"])     # discarded
+                    info["preview"] = {ch.resource.path: ch.new_contents for ch in preview.changes}
                 changes = IntroduceParameter(project, res, off).get_changes(case["introduce"]["name"])
+                if info is not None:
+                    info["recompute_differs"] = info["preview"] != {ch.resource.path: ch.new_contents for ch in changes.changes}
             except Exception as e:
                 return None, type(e).__name__
             new = dict(modules)
